@@ -291,7 +291,8 @@ func (v *VStruct) exist(isValidTvKind bool, structName, fieldName, cusMsg string
 		if tv.Type() == timeReflectType {
 			return
 		}
-		v.validate(structName+"."+fieldName, tv, false)
+		// required 进来时(isValidTvKind 为 false), 指向非结构体的指针(如: *string)不需要再验证
+		v.validate(structName+"."+fieldName, tv, !isValidTvKind)
 	case reflect.Slice, reflect.Array:
 		for i := 0; i < tv.Len(); i++ {
 			v.validate(structName+"."+fieldName+"["+ToStr(i)+"]", tv.Index(i), true)
